@@ -129,4 +129,34 @@ VF_PROPERTY(reload_long_sequences, 1, "arrays of 4095 .. 8193 integers (around a
 	}
 }
 
+// null elements inside sequences: a null is "not loaded"; whatever the loader does with such an element, the result must not depend on what
+// the target held before (oracle: the same document loaded into a default-constructed target)
+namespace {
+using refmp::Val;
+template <class C> std::string seq_str(const C& c) { std::string r; for (const auto& x : c) r += vf::cat(static_cast<long long>(x), " "); return r; }
+template <class A, class C> void run_null_seq(vf::Ctx& c, int archId, const char* name, bool kf66Witness) {
+	using T = typename C::value_type; constexpr bool isBool = std::is_same_v<T, bool>;
+	const size_t n = 1 + c.src.draw(6); std::vector<Val> doc; std::vector<bool> nullAt(n, false); bool anyNull = false;
+	for (size_t i = 0; i < n; i++) { if (c.src.chance(1, 3) || (kf66Witness && i == 0)) { nullAt[i] = true; anyNull = true; doc.push_back(refmp::mkNil()); } else if (isBool) doc.push_back(refmp::mkBool(c.src.coin())); else doc.push_back(refmp::mkInt(static_cast<int64_t>(c.src.draw(1000)))); }
+	std::string bytes; Cfg mem; Outcome so = dyn::save<A>(refmp::mkArr(doc), bytes, mem); if (!so.ok()) c.fail("saving the document failed", so.str());
+	Cfg cfg; cfg.stream = c.src.coin(); cfg.streamKind = cfg.stream ? gen_stream_kind(c.src, archId == MSGPACK) : 0; cfg.chunk = 1 + c.src.draw(20);
+	C prior; for (size_t k = kf66Witness ? n : c.src.draw(9); k > 0; k--) { if constexpr (isBool) prior.push_back(kf66Witness ? true : c.src.coin()); else prior.push_back(static_cast<T>(7000 + k)); }
+	C fresh{}, pop = prior; Outcome of = load<A>(fresh, bytes, cfg), op = load<A>(pop, bytes, cfg);
+	c.nontrivial = anyNull && !prior.empty(); c.describe(vf::cat(arch_name(archId), " ", name, " doc=", refmp::show(refmp::mkArr(doc)).substr(0, 120), " prior=", prior.size(), " ", cfg.str()));
+	const std::string d = vf::cat(arch_name(archId), " ", name, " doc=", refmp::show(refmp::mkArr(doc)), " prior=[", seq_str(prior), "] [", cfg.str(), "] fresh => ", of.str(), " [", seq_str(fresh), "] populated => ", op.str(), " [", seq_str(pop), "]");
+	if (of.ok() != op.ok()) c.fail("loading into a populated target ends differently from loading into a fresh one", d);
+	if (!of.ok()) return;
+	if (fresh.size() != pop.size()) c.fail("loading into a populated target gives another length than into a fresh one (stale or lost elements)", d);
+	bool staleAtNull = false; auto a = fresh.begin(); auto b = pop.begin();
+	for (size_t i = 0; a != fresh.end(); ++a, ++b, ++i) { if (*a == *b) continue; if (!isBool && i < n && nullAt[i]) { staleAtNull = true; continue; } c.fail("loading into a populated target gives another value than into a fresh one (a stale element survives or a loaded one is lost)", vf::cat("element ", i, " | ", d)); }
+	if (staleAtNull) { if (kf66Witness) c.fail("KF-66: a null element of an array leaves the old element of a populated sequence in place", d); c.label("excluded:KF-66-null-element-keeps-the-old-element"); }
+}
+template <class A> void pick_null_seq(vf::Ctx& c, int archId) {
+	switch (c.src.draw(5)) { case 0: case 1: run_null_seq<A, std::vector<bool>>(c, archId, "vector<bool>", false); break; case 2: run_null_seq<A, std::vector<int>>(c, archId, "vector<int>", false); break; case 3: run_null_seq<A, std::list<int>>(c, archId, "list<int>", false); break; default: run_null_seq<A, std::deque<int>>(c, archId, "deque<int>", false); }
+}
+}
+VF_PROPERTY(reload_sequences_with_null_elements, 2, "arrays of booleans / integers in which any subset of elements is null (MessagePack nil, JSON null), loaded into vector<bool>, vector<int>, list<int>, deque<int> holding 0..8 other elements, memory / streams / file: same outcome, same length and same elements as loading the document into a default-constructed target; the recorded finding KF-66 (generic containers keep the OLD element at a null position) is excluded by construction and counted; non-trivial = a null element and a non-empty prior target")
+{ if (c.src.coin()) pick_null_seq<MsgPackArchive>(c, MSGPACK); else pick_null_seq<JsonArchive>(c, JSON); }
+VF_PROPERTY(kf66_null_element_keeps_stale, 1, "witness of KF-66") { if (c.src.coin()) run_null_seq<JsonArchive, std::vector<int>>(c, JSON, "vector<int>", true); else run_null_seq<MsgPackArchive, std::list<int>>(c, MSGPACK, "list<int>", true); }
+
 VF_MAIN("c18_map_modes")
